@@ -88,6 +88,16 @@ impl Walker {
         self.push(f.name.node.clone(), kind, scope);
         self.block_counter += 1;
         let inner = format!("{}{}()#{}", scope, f.name.node, self.block_counter);
+        // named template parameters live in the scope of the function as well
+        for tp in &f.template_params.0 {
+            let name = match tp {
+                ast::TemplateParam::Type(t) => t.name.as_ref().map(|n| n.node.clone()),
+                ast::TemplateParam::Value(v) => v.name.as_ref().map(|n| n.node.clone()),
+            };
+            if let Some(n) = name {
+                self.push(n, "template-parameter", &inner);
+            }
+        }
         for p in &f.params {
             if let Some(n) = declarator_name(&p.declarator) {
                 self.push(n, "parameter", &inner);
